@@ -9,6 +9,8 @@ import XalanModel.C19.AutoPtr
 import XalanModel.C19.OStream
 import XalanModel.C19.XMap
 import XalanModel.C19.XBDeque
+import XalanModel.C19.StrCache
+import XalanModel.C19.XArr
 import Driver.Util
 /-
 xm_c19: (a) replays container operation logs on the allocation-explicit models (same request lines as
@@ -38,6 +40,10 @@ structure St where
   bvec : XBVec := {}
   ap : APState := {}
   os : OStream := {}
+  sc : StrCache.Run := {}
+  aa : XArr := { bs := 1 }
+  aaClearDestroys : Bool := false
+  scEarly : Bool := false
   mp : XMap := { minB := 2 }
   dq : XBDeque := { bs := 1 }
   dropEmpty : Bool := false
@@ -201,6 +207,54 @@ def osStep (s : St) : List String → St × String
     ({ s with os := {}, l := l1 }, s!"destroyed live={l1.live.length} bad={l1.bad}")
   | _ => (s, "bad")
 
+def showAA (a : XArr) : String :=
+  String.join (a.entries.map fun e => s!" {e.free}/{e.size}") ++
+  s!" last={match a.last with | some i => toString i | none => "-1"}"
+
+/-- `aa new <blockSize>` | `aa alloc <n>` | `aa reset` | `aa clear` | `aa destroy`: XalanArrayAllocator<long> -/
+def aaStep (s : St) : List String → St × String
+  | ["new", n] => match n.toNat? with
+    | some n => ({ s with aa := { bs := n } }, tail s.l .ok (showAA { bs := n }))
+    | none => (s, "bad")
+  | ["destroy"] =>
+    let l1 := s.aa.destroy s.l
+    ({ s with aa := { bs := 1 }, l := l1 }, tail l1 .ok "destroyed")
+  | ws =>
+    let op : Option XArr.Op := match ws with
+      | ["alloc", n] => n.toNat?.map .alloc
+      | ["reset"] => some .reset
+      | ["clear"] => some .clear
+      | _ => none
+    match op with
+    | some op =>
+      let r := XArr.step s.aaClearDestroys s.aa s.l op
+      ({ s with aa := r.2.1, l := r.2.2 }, tail r.2.2 r.1 (showAA r.2.1))
+    | none => (s, "bad")
+
+/-- `sc new <max> <early>` | `sc get` | `sc rel <handle>` | `sc reset` | `sc clear`: XalanDOMStringCache histories; the
+reply is what the real cache shows after the call: sizes of the two lists, strings alive in its allocator, destroys of a
+string that was not alive -/
+def scStep (s : St) : List String → St × String :=
+  let shw (r : StrCache.Run) (w : String) : String :=
+    s!"sc {w} avail={r.c.avail.length} busy={r.c.busy.length} alive={r.l.live.length} bad={r.l.bad}"
+  fun
+  | ["new", m, e] => match m.toNat? with
+    | some m => let r : StrCache.Run := { c := { maxSize := m } }
+                ({ s with sc := r, scEarly := e == "1" }, shw r "new")
+    | none => (s, "bad")
+  | ["get"] => let r := StrCache.step s.scEarly s.sc .get; ({ s with sc := r }, shw r "ok")
+  | ["rel", h] => match h.toNat? with
+    | some h =>
+      let w := match s.sc.handles[h]? with
+        | some b => if (StrCache.release s.scEarly b s.sc.c s.sc.l).1 then "true" else "false"
+        | none => "false"
+      let r := StrCache.step s.scEarly s.sc (.release h)
+      ({ s with sc := r }, shw r w)
+    | none => (s, "bad")
+  | ["reset"] => let r := StrCache.step s.scEarly s.sc .reset; ({ s with sc := r }, shw r "ok")
+  | ["clear"] => let r := StrCache.step s.scEarly s.sc .clear; ({ s with sc := r }, shw r "ok")
+  | _ => (s, "bad")
+
 def showMap (m : XMap) : String :=
   s!"size={m.size} buckets={m.buckets.length} bcap={(m.buckets.map (·.cap)).foldl (· + ·) 0} free={m.freeE.length} :" ++
   String.join (m.entries.map fun e => s!" {e.key}={e.val}")
@@ -277,9 +331,10 @@ def step (s : St) (ws : List String) : St × String :=
   | ["cfg", a, b, c, d] => ({ s with cfg := ⟨a == "1", b == "1"⟩, skipPending := c == "1", popNull := d == "1" }, "cfg")
   | ["cfg", a, b, c, d, e] => ({ s with cfg := ⟨a == "1", b == "1"⟩, skipPending := c == "1", popNull := d == "1", dropEmpty := e == "1" }, "cfg")
   | ["cfg", a, b, c, d, e, g] => ({ s with cfg := ⟨a == "1", b == "1"⟩, skipPending := c == "1", popNull := d == "1", dropEmpty := e == "1", lateUnerase := g == "1" }, "cfg")
+  | ["cfg", a, b, c, d, e, g, h] => ({ s with cfg := ⟨a == "1", b == "1"⟩, skipPending := c == "1", popNull := d == "1", dropEmpty := e == "1", lateUnerase := g == "1", aaClearDestroys := h == "1" }, "cfg")
   | ["new", k] =>
     match k.toNat? with
-    | some k => ({ cfg := s.cfg, skipPending := s.skipPending, popNull := s.popNull, dropEmpty := s.dropEmpty, lateUnerase := s.lateUnerase, l := { failAt := k } }, "new")
+    | some k => ({ cfg := s.cfg, skipPending := s.skipPending, popNull := s.popNull, dropEmpty := s.dropEmpty, lateUnerase := s.lateUnerase, aaClearDestroys := s.aaClearDestroys, l := { failAt := k } }, "new")
     | none => (s, "bad")
   | ["ledger"] => ({ s with trace := some {}, inTrace := true }, "ledger")
   | ["alloc", id] => match id.toNat? with
@@ -327,6 +382,8 @@ def step (s : St) (ws : List String) : St × String :=
     | "ra" :: rest => raStep s rest
     | "ap" :: rest => apStep s rest
     | "os" :: rest => osStep s rest
+    | "sc" :: rest => scStep s rest
+    | "aa" :: rest => aaStep s rest
     | "dql" :: rest => dqStep false s rest
     | "dqb" :: rest => dqStep true s rest
     | "m" :: rest => mapStep s rest
